@@ -18,6 +18,10 @@ Second generalisation pass (classes 21-29): zone-aware indices (every index of a
 zoneinfo), cells / scalars closer to one another than np.isclose's tolerances (1e-9, 1.000000001, tiny divisors), two Series that are views of ONE buffer with different strides,
 policies left out of the call (= the documented default 'ij'), the column label 0, and - in `session` - a cell of an operand written in place by the caller between two calls
 (the same object with new content: later calls are judged by the new content). Classes 22, 23, 24 do not apply (see ASSUMPTIONS).
+
+Round-7 answer (class 13 among the OPERANDS of the aggregates): `agg` used to hand df_sum / df_mean / df_count timeseries only. One case in six now carries 1-2 scalar operands - plain python
+ints / floats and numpy scalars, 0 and NaN among them, one number in two raw types - first, between or last, inside the list or as a bare argument. The reference broadcasts a scalar over the
+union index and the union of the columns: a number counts as data everywhere, a NaN scalar nowhere.
 """
 import datetime
 import json
@@ -59,6 +63,11 @@ ASSUMPTIONS = [
     'min_/max_: NaN-propagating (documented as reduced np.minimum/np.maximum); frames of one case have the same column set (possibly in a different order)',
     'df_sum/df_mean/df_count are called with their default policies (join="oj", columns="oj"), either left out or spelled out (oj / outer, by keyword or positionally), on homogeneous '
     'collections: all Series or all multi-column frames; the parameters method= and exc= are left at their defaults everywhere (the statement does not describe fill methods or other masks)',
+    'df_sum/df_mean/df_count, scalars among the operands (one case in six; "scalars broadcast", "scalars on either side"): 1-2 plain python ints / floats or np.int64 / np.float64 (incl. 0 and NaN) '
+    'standing first, between or last, in the list or as a bare argument (df_sum(ts, 5.0), df_count(5, [a, b])), the second one half of the time the first one\'s number in another raw type '
+    '(5 / 5.0 / np.int64(5) / np.float64(5.0)); at most 4 operands, at least one of them a timeseries. Judged from the statement: the scalar has its value at every stamp of the union index of the '
+    'timeseries (and in every column of the union of the frames\' columns), so a non-NaN scalar counts as one operand with data everywhere and a NaN scalar is skipped everywhere; the raw type of a '
+    'number makes no difference. bool operands are not generated (the quantifier speaks of scalars next to values incl. NaN and 0: numbers)',
     'commutativity is asserted for the binary form op(a, b) vs op(b, a) of add_ and mul_ (results compared stamp by stamp, not in row order)',
     'policies are spelled ij/oj or inner/outer; a call is written op(a, b, join=, columns=), op(a, b, join, None, columns) or op(a=, b=, join=, columns=); the operands must be unchanged '
     'after the call, and so must the caller\'s LISTS of operands (otherwise re-evaluating the same expression gives another result; within a session a list with the same content is one list '
@@ -562,6 +571,49 @@ def _minmax_case(draw):
                 lhs_list=True if len(lhs) > 1 else draw(st.booleans()), rhs_list=True if len(rhs) > 1 else draw(st.booleans()))
 
 
+_RAW_FORMS = [('int', None), ('float', None), ('int', 'np'), ('float', 'np')]      # python int / python float / np.int64 / np.float64
+
+
+def _raw_form(o):
+    return ('int' if isinstance(o['v'], int) and not isinstance(o['v'], bool) else 'float', o.get('raw'))
+
+
+def _retype(draw, c):
+    """the SAME number as the scalar operand c, written in another raw type: python int / python float / np.int64 / np.float64 (the integer forms only for
+    whole numbers that are exact in both, NaN only as a float)"""
+    v = c['v']
+    whole = v != 'nan' and float(v) == int(v) and abs(v) <= BIG
+    forms = [f for f in _RAW_FORMS if f != _raw_form(c) and (whole or f[0] == 'float')]
+    kind, raw = draw(st.sampled_from(forms))
+    o = dict(k='c', v=v if v == 'nan' else int(v) if kind == 'int' else float(v))
+    if raw:
+        o['raw'] = raw
+    return o
+
+
+def _agg_scalars(draw, ops, ctx):
+    """scalars among the OPERANDS of an aggregate (one case in five): 1-2 plain python ints / floats or numpy scalars (incl. NaN - an operand without data anywhere -
+    and 0) next to the timeseries, at a drawn place (first, between, last); the second one is, half of the time, the first one's number in another raw type.
+    The operand list keeps at most 4 entries (a list of 4 timeseries gives up one between the first and the last) and so at least two timeseries; where the first and the last operand are one object the scalar goes between them"""
+    k = draw(st.integers(0, 9))
+    for j in range(max(0, k - 7)):
+        have = [o for o in ops if o['k'] == 'c']
+        c = _retype(draw, have[0]) if have and draw(st.booleans()) else _c(draw, ctx)
+        if not have and draw(st.integers(0, 5)) == 5:
+            c['v'] = 'nan'                            # a scalar without data: skipped at every stamp
+        n = len(ops)
+        ends_one_object = n >= 3 and bool(ops[0].get('obj')) and json.dumps(ops[0], sort_keys=True) == json.dumps(ops[-1], sort_keys=True)
+        if n < 4:
+            where = draw(st.sampled_from(['first', 'first', 'last', 'between']))
+            pos = draw(st.integers(1, n - 1)) if (where == 'between' or ends_one_object) else 0 if where == 'first' else n
+            ops.insert(pos, c)
+        else:
+            ts = [i for i in range(1, n - 1) if ops[i]['k'] != 'c']       # a full list: the scalar takes the place of a timeseries between the first and the last
+            if ts:
+                ops[draw(st.sampled_from(ts))] = c
+    return ops
+
+
 @st.composite
 def _agg_case(draw):
     op = draw(st.sampled_from(['df_sum', 'df_mean', 'df_count']))
@@ -577,12 +629,23 @@ def _agg_case(draw):
         else:
             ops.append(_ts(draw, 's', ops, ctx))
     ops = _views(draw, _identity(draw, ops, ctx), ctx, series_slots_only=True)
+    ops = _agg_scalars(draw, ops, ctx)
+    n = len(ops)
     form = draw(st.sampled_from(['list', 'list', 'split']))
     # 'kw': no policy is passed (as documented); 'explicit': the default policies are spelled out (join / columns = oj or outer); 'pos'; 'named'
     base = dict(op=op, axis=ctx['axis'], tz=ctx['tz'], style=draw(st.sampled_from(['kw', 'kw', 'kw', 'kw', 'explicit', 'explicit', 'pos', 'named'])),
                 join=draw(st.sampled_from(['oj', 'outer'])), columns=draw(st.sampled_from(['oj', 'outer'])))
+    # a scalar standing first / last is, two times out of three, handed over as a bare argument: df_sum(ts, 5.0), df_count(5, [a, b])
+    bare = None
+    if (ops[0]['k'] == 'c' or ops[-1]['k'] == 'c') and draw(st.integers(0, 2)) > 0:
+        bare = 'lhs' if ops[0]['k'] == 'c' and (ops[-1]['k'] != 'c' or draw(st.booleans())) else 'rhs'
     if draw(st.integers(0, 24)) >= 23:
         return _empty_side(draw, dict(base), ops)
+    if bare is not None:
+        nl = 1 if bare == 'lhs' else n - 1
+        lhs, rhs = ops[:nl], ops[nl:]
+        return dict(base, form='split', lhs=lhs, rhs=rhs, lhs_list=False if bare == 'lhs' else (True if len(lhs) > 1 else draw(st.booleans())),
+                    rhs_list=False if bare == 'rhs' else (True if len(rhs) > 1 else draw(st.booleans())))
     if form == 'list':
         return dict(base, form=form, lhs=ops, rhs=None, lhs_list=True, rhs_list=False)
     nl = draw(st.integers(1, n - 1))
@@ -1134,6 +1197,13 @@ def _classes(all_ops, extra, policies=()):
     # ---- classes 11-20 of the brief
     if any(o['k'] == 'c' and o.get('raw') == 'np' for o in all_ops):
         cls.append('numpy_scalar')
+    scal = [o for o in all_ops if o['k'] == 'c']
+    if any(not o.get('raw') for o in scal):
+        cls.append('python_scalar')                  # a plain python int / float (not a numpy scalar) among the operands
+    if any(o['v'] == 'nan' for o in scal):
+        cls.append('nan_scalar')
+    if any(_raw_form(x) != _raw_form(y) and (x['v'] == y['v']) for i, x in enumerate(scal) for y in scal[i + 1:]):
+        cls.append('one_number_in_several_raw_types')     # 5 and 5.0, 2.5 and np.float64(2.5), nan and np.float64(nan) in one call
     if any(isinstance(v, int) and not isinstance(v, bool) and abs(v) >= BIG for o in all_ops for v in cells(o)):
         cls.append('int_beyond_2**53')
     if len(set(o.get('unit') for o in ts)) > 1:
@@ -1342,14 +1412,17 @@ def run_agg(spec):
     _check_unchanged(what, built, before, conts)
     ops = spec['lhs'] + (spec['rhs'] or [])
     ms = [_model(o) for o in ops]
-    index = sorted(set(t for m in ms for t in m[-1]))
-    frames = ms[0][0] == 'f'
-    cols = sorted(set(c for m in ms for c in m[1])) if frames else [None]
+    tms = [m for m in ms if m[0] != 'c']           # a scalar operand is broadcast: it has its value at every stamp of the union index and in every column
+    index = sorted(set(t for m in tms for t in m[-1]))
+    frames = tms[0][0] == 'f'
+    cols = sorted(set(c for m in tms for c in m[1])) if frames else [None]
 
     def agg(t, c):
         vals = []
         for m in ms:
-            if frames:
+            if m[0] == 'c':
+                v = m[1]
+            elif frames:
                 row = m[2].get(t)
                 v = NAN if (row is None or c not in row) else row[c]
             else:
@@ -1372,6 +1445,12 @@ def run_agg(spec):
     compare(res, exp, what, tol=1e-12 if op == 'df_mean' else None)
     nt, cls = _classes(ops, ['op=' + op, 'form=' + spec['form'], 'frames' if frames else 'series'])
     _special_classes(spec, cls)
+    if ops[0]['k'] == 'c':
+        cls.append('scalar_first')
+    if any(o['k'] == 'c' for o in ops[1:-1]):
+        cls.append('scalar_between_timeseries')
+    if (not spec['lhs_list'] and spec['lhs'][0]['k'] == 'c') or (spec['rhs'] and not spec['rhs_list'] and spec['rhs'][0]['k'] == 'c'):
+        cls.append('scalar_as_bare_argument')         # df_sum(ts, 5.0), df_count(5, [a, b])
     cells = [v for row in exp[2].values() for v in row.values()] if frames else list(exp[1].values())
     if any((v == 0 and op == 'df_count') or _isnan(v) for v in cells):
         cls.append('cell_without_data')
@@ -1640,6 +1719,11 @@ _NEW_FLOORS = {'numpy_scalar': 0.027, 'mixed_index_units': 0.012, 'unsorted_inde
 _GEN2_FLOORS = {'zone_aware_stamps': 0.02, 'values_within_tolerance': 0.022, 'same_buffer_other_strides': 0.004, 'falsy_column_label': 0.015, 'policy_left_to_default': 0.03}
 
 
+# scalars among the operands of the aggregates (one number in several raw types: python int / float, np.int64 / np.float64); floors at about a third of the rate observed over seeds 1-3
+_AGG_SCALAR_FLOORS = {'scalar': 0.05, 'python_scalar': 0.045, 'numpy_scalar': 0.014, 'nan_scalar': 0.01, 'falsy_scalar': 0.01, 'one_number_in_several_raw_types': 0.009,
+                      'scalar_first': 0.016, 'scalar_between_timeseries': 0.034, 'scalar_as_bare_argument': 0.014}
+
+
 def _floors(old, **more):
     d = dict(old)
     d.update(_NEW_FLOORS)
@@ -1686,10 +1770,11 @@ SUBS = [
                                  'shared_index_object': 0.045, 'mixed_index_units': 0.03, 'unsorted_index': 0.02, 'intraday_stamps': 0.085, 'long': 0.03, 'numeric_column_names': 0.012,
                                  'operand_edited_in_place_between_calls': 0.06, 'same_operands_again_after_an_edit': 0.03, 'zone_aware_stamps': 0.02, 'values_within_tolerance': 0.03}),
     Sub('agg', lambda tier: _agg_case(), run_agg, quick=1000, thorough=10000,
-        rule='df_sum/df_mean/df_count on 2-4 Series or 2-4 multi-column frames (column sets may differ), default policies left out or spelled out; ' + _COMMON_RULE + 'oracle: union index, '
+        rule='df_sum/df_mean/df_count on 2-4 Series or 2-4 multi-column frames (column sets may differ), default policies left out or spelled out; one case in six with 1-2 scalar operands (python int / float, '
+             'np.int64 / np.float64, 0, NaN, one number in two raw types) first, between or last, in the list or as a bare argument: broadcast over the union index and columns, a NaN scalar is skipped; ' + _COMMON_RULE + 'oracle: union index, '
              'sum/mean over the non-NaN operands, count of them, NaN (count 0) where none. non-trivial as in arith',
         floor=0.3, class_floors=_floors({'cell_without_data': 0.3, 'cell_with_data': 0.5, 'differing_columns': 0.1, 'long': 0.06, 'fingerprint_indices': 0.05},
-                                        numpy_scalar=None, policy_left_to_default=None, mixed_index_units=0.03, unsorted_index=0.023, stamps_1us_apart=0.04, same_object_twice=0.035, same_object_first_and_last=0.015,
+                                        policy_left_to_default=None, mixed_index_units=0.03, unsorted_index=0.023, stamps_1us_apart=0.04, same_object_twice=0.035, same_object_first_and_last=0.015,
                                         first_and_last_on_one_index_object_other_between=0.012, shared_index_object=0.03, call_written_positionally=0.027, default_policies_spelled_out=0.065,
-                                        empty_list_companion=0.012, values_within_tolerance=0.03, same_buffer_other_strides=0.011, falsy_column_label=0.025)),
+                                        empty_list_companion=0.012, values_within_tolerance=0.03, same_buffer_other_strides=0.011, falsy_column_label=0.025, **_AGG_SCALAR_FLOORS)),
 ]
